@@ -217,11 +217,15 @@ def run_batch(items, report, relevant, wd, what, timeout=2400, shards=None):
         if stats["timeout"]:
             raise MachineryError("TLC timed out on batch %s" % what)
         errs = stats["errors"]
+        if any("Parsing or semantic analysis failed" in b or "Parse Error" in b for b in errs) or any("***Parse Error***" in l or "Semantic errors" in l for l in lines):
+            raise MachineryError("the specification does not parse: %s" % " | ".join(l for l in lines if "rror" in l)[:500])
         if errs or stats["rc"] not in (0,):
             # isolate: rerun every program of the shard alone to attribute the evaluation error
             bad = isolate(idx, entries, wd, what, report)
             for i, msg in bad.items():
                 outcomes[i]["evalerr"] = msg
+            if len(bad) == len(idx) and len(idx) > 3 and len(set(bad.values())) == 1:
+                raise MachineryError("every program of the batch fails identically (%s): a fault of the machinery, not of the programs" % list(bad.values())[0][:300])
             if not bad:
                 raise MachineryError("TLC failed on batch %s: %s" % (what, (errs or ["rc=%s" % stats["rc"]])[0][:600]))
             # verdict lines of the other programs of this shard were lost with the crash: rerun without the culprits
